@@ -574,7 +574,8 @@ class Parser:
         if not isinstance(token, TokenInfo):
             return None
         text = token.string
-        idx = text.find("'") if text.find("'") >= 0 else text.find('"')
+        quotes = [i for i in (text.find("'"), text.find('"')) if i >= 0]
+        idx = min(quotes) if quotes else -1  # the opening quote is the first quote character
         if idx > 0:
             prefix, text = text[:idx].lower(), text[idx:]
             if "p" in prefix:
